@@ -93,7 +93,7 @@ def run(repo, res, tier):
 
     for qn_, f_, ok_, mod_, site_, in_fn in fresh_document_records(repo, "commonroad/common/writer/file_writer_protobuf.py", "ProtobufFileWriter"):
         res.check("PB-FRESH", "%s: self.%s re-created before it is filled" % (qn_, f_), ok_, mod_, site_, "%s fills self.%s (%s in %s) without re-creating it first" % (qn_, f_, norm(site_)[:60], in_fn), "repeated fields filled by an earlier write call are still in the message: the second file of a writer holds every lanelet, obstacle and planning problem twice and does not read back", qualname=qn_)
-    res.rule("PB-KEY", "goal lanelets are keyed by the position of their goal state on both sides", 3)
+    res.rule("PB-KEY", "goal lanelets are keyed by the position of their goal state on both sides", 2)
     protos = load_protos(repo)
     w = WriterPB(repo)
     r = ReaderPB(repo)
@@ -358,8 +358,11 @@ def run(repo, res, tier):
     ppb = w.builders.get("PlanningProblemMessage")
     if ppb is None:
         raise AnalysisError("PlanningProblemMessage missing")
-    for node, ok in writer_goal_keys(ppb.fn):
-        res.check("PB-KEY", "writer looks goal lanelets up with the index of the goal state (%s)" % norm(node)[:60], ok, wmod, node, "PlanningProblemMessage consults %s" % norm(node)[:80], "the lanelets written with a goal state are those of another goal state", qualname="PlanningProblemMessage.create_message")
+    from ..keyrule import writer_goal_pairs
+
+    ppm = wmod.classes.get("PlanningProblemMessage")
+    bad_ = writer_goal_pairs(repo, ppm, ppb.fn, "GoalStateMessage.create_message", ("StateMessage.create_message",))
+    res.check("PB-KEY", "writer hands every goal state exactly its own goal lanelets (evaluated on three goal states)", not bad_, wmod, ppb.fn, "PlanningProblemMessage.create_message: %s" % "; ".join(bad_[:2]), "the lanelets written with a goal state are those of another goal state (or are inherited from an earlier one)", qualname="PlanningProblemMessage.create_message")
     # the top-level message: every repeated / singular member of CommonRoad is filled by the file writer
     top = protos.message("CommonRoad")
     pw = wmod.classes["ProtobufFileWriter"]
